@@ -594,7 +594,14 @@ class CallMixin:
             a = self.truth(self.evalv(node.args[0], env))
             if z3.is_false(z3.simplify(a)):
                 return sym.mk_bool(True)  # lazy: the consequent may mention names that are unbound on this path
-            b = self.truth(self.evalv(node.args[1], env))
+            try:
+                b = self.truth(self.evalv(node.args[1], env))
+            except Unsupported as u:
+                # the consequent mentions a local that is not bound on this path: the implication still holds when the
+                # antecedent is false on this path (proved, not assumed)
+                if "unbound name" in str(u) and self.ctx.prove_quick(z3.Not(a), 300):
+                    return sym.mk_bool(True)
+                raise
         finally:
             self.spec -= 1
         return sym.mk_bool(z3.Implies(a, b))
@@ -652,6 +659,46 @@ class CallMixin:
             return self.index_of(self.evalv(node.args[0], env), self.evalv(node.args[1], env))
         finally:
             self.spec -= 1
+
+    def sp_bkey(self, node, env):
+        """bkey(b): the integer id under which the byte string b is kept in a set[bytes] (sym.bkey)."""
+        v = self.evalv(node.args[0], env)
+        return V(TInt, self.set_key(TSet(TBytes), v))
+
+    def sp_has_key(self, node, env):
+        """has_key(s, c): the set[bytes] s has a member whose id is c."""
+        s, c = self.evalv(node.args[0], env), self.evalv(node.args[1], env)
+        if not (isinstance(s.ty, TSet) and s.ty.k == TBytes):
+            raise Unsupported("has_key on %s" % s.ty)
+        return sym.mk_bool(z3.Select(s.t, sym.as_int(c)))
+
+    def sp_is_instance(self, node, env):
+        """is_instance(obj, 'Cls'): obj was created (on this path) as an instance of exactly Cls."""
+        v = self.evalv(node.args[0], env)
+        if not isinstance(v.ty, TRef):
+            raise Unsupported("is_instance of %s" % v.ty)
+        return sym.mk_bool(self.heap.read("object", "__class__", TInt, v.t).t == self.class_id(node.args[1].value))
+
+    def sp_cast(self, node, env):
+        """cast(obj, 'Cls'): view a reference as an instance of a subclass (spec only; the clause should guard it with
+        isinstance knowledge of its own)."""
+        v = self.evalv(node.args[0], env)
+        if not isinstance(v.ty, TRef):
+            raise Unsupported("cast of %s" % v.ty)
+        return V(TRef(node.args[1].value), v.t)
+
+    def sp_elem(self, node, env):
+        """elem(seq, i): the array cell i of a list / bytes value, WITHOUT Python's negative-index normalisation and
+        without a bounds check (spec only; meaningful for 0 <= i < len(seq), which the clause must guard).  Unlike
+        at()/seq[i] the term is a plain select, which the solver can use as a quantifier trigger."""
+        s, i = self.evalv(node.args[0], env), self.evalv(node.args[1], env)
+        if isinstance(s.ty, TOpt):
+            s = sym.opt_val(s)
+        if isinstance(s.ty, TList):
+            return V(s.ty.elem, z3.Select(sym.list_arr(s), sym.as_int(i)))
+        if s.ty == TBytes:
+            return V(TInt, z3.Select(sym.bytes_data(s), sym.as_int(i)))
+        raise Unsupported("elem of %s" % s.ty)
 
     def sp_bytes_eq(self, node, env):
         a, b = self.evalv(node.args[0], env), self.evalv(node.args[1], env)
@@ -820,6 +867,37 @@ class CallMixin:
             return V(v.ty, v.t)
         raise Unsupported("list() of %s" % v.ty)
 
+    def bi_set(self, node, env):
+        if not node.args:
+            return EmptyLiteral("set")
+        raise Unsupported("set(iterable)")
+
+    def bi_frozenset(self, node, env):
+        """frozenset() / frozenset(<tuple display>): the set whose members are exactly the tuple's items"""
+        if not node.args:
+            return EmptyLiteral("set")
+        v = self.evalv(node.args[0], env)
+        if isinstance(v.ty, TTuple) and v.ty.items and all(t == v.ty.items[0] for t in v.ty.items) and v.ty.items[0] in (TInt, TBytes):
+            ty = TSet(v.ty.items[0])
+            t = sym.set_empty(ty).t
+            for i in range(len(v.ty.items)):
+                t = z3.Store(t, self.set_key(ty, sym.tuple_get(v, i)), True)
+            return V(ty, t)
+        raise Unsupported("frozenset() of %s" % v.ty)
+
+    def bi_sorted(self, node, env):
+        """sorted(<set or list of int/bytes>): only its totality is modelled (these element types are totally ordered, so
+        it cannot raise); the resulting list is left unconstrained (an over-approximation of the real result)"""
+        v = self.evalv(node.args[0], env)
+        if len(node.args) == 1 and not node.keywords and isinstance(v.ty, (TSet, TList)):
+            ety = v.ty.k if isinstance(v.ty, TSet) else v.ty.elem
+            if ety in (TInt, TBytes):
+                r = sym.fresh(TList(ety), self.ctx.fresh_name("sorted"))
+                for f in sym.wf(r):
+                    self.ctx.assume(f)
+                return r
+        raise Unsupported("sorted() of %s" % v.ty)
+
     def bi_divmod(self, node, env):
         a, b = self.evalv(node.args[0], env), self.evalv(node.args[1], env)
         q = self.binop(ast.FloorDiv(), a, b, node)
@@ -901,11 +979,24 @@ class CallMixin:
                 return DictView(name, recv, tgt)
         if isinstance(ty, TSet):
             if name == "add":
-                self.mutate(tgt, recv, V(ty, z3.Store(recv.t, sym.coerce(args[0], ty.k).t, True)), env)
+                self.mutate(tgt, recv, V(ty, z3.Store(recv.t, self.set_key(ty, args[0]), True)), env)
                 return NONE
             if name == "discard":
-                self.mutate(tgt, recv, V(ty, z3.Store(recv.t, sym.coerce(args[0], ty.k).t, False)), env)
+                self.mutate(tgt, recv, V(ty, z3.Store(recv.t, self.set_key(ty, args[0]), False)), env)
                 return NONE
+            if name == "difference" and len(args) == 1 and isinstance(args[0], V) and args[0].ty == ty:
+                # a new set: members of recv that are not members of the argument
+                e = z3.FreshConst(recv.t.sort().domain(), "e")
+                return V(ty, z3.Lambda([e], z3.And(z3.Select(recv.t, e), z3.Not(z3.Select(args[0].t, e)))))
+        if ty == TBytes and name == "startswith" and len(args) == 1 and isinstance(args[0], V) and args[0].ty == TBytes and not kwargs:
+            # bytes.startswith(prefix): len(prefix) <= len(self) and the first len(prefix) bytes agree
+            p = args[0]
+            lit = sym.bytes_literal(p)
+            if lit is not None and len(lit) <= 64:
+                return sym.mk_bool(z3.And(sym.bytes_len(recv) >= len(lit), *[z3.Select(sym.bytes_data(recv), i) == c for i, c in enumerate(lit)]))
+            k = z3.FreshConst(z3.IntSort(), "k")
+            lp = sym.bytes_len(p)
+            return sym.mk_bool(z3.And(sym.bytes_len(recv) >= lp, z3.ForAll([k], z3.Implies(z3.And(0 <= k, k < lp), z3.Select(sym.bytes_data(recv), k) == z3.Select(sym.bytes_data(p), k)))))
         key = "%s.%s" % ({TBytes: "bytes", TStr: "str"}.get(ty, "list" if isinstance(ty, TList) else "dict"), name)
         c = self.registry.contracts.get(key)
         if c is not None:
